@@ -11,6 +11,8 @@ import Mathlib.Algebra.Order.Field.Basic
 import Mathlib.Algebra.Order.Ring.Abs
 import Mathlib.Algebra.Order.Ring.Cast
 import Mathlib.Tactic.Ring
+import Mathlib.Tactic.FieldSimp
+import Mathlib.Algebra.CharZero.Defs
 import Mathlib.Tactic.LinearCombination
 import Mathlib.Tactic.Linarith
 import Mathlib.Tactic.Positivity
@@ -185,6 +187,315 @@ theorem merge_sound (env : Nat → K) (d : Nat) : ∀ xs ys : Terms, KeysLe d xs
             · rw [h]; exact hxd
             · exact ih2 z h
 
+
+theorem scaleTerms_sound (env : Nat → K) (f : Int) : ∀ t : Terms,
+    evalTerms env (scaleTerms f t) = (f : K) * evalTerms env t ∧ ∀ d, KeysLe d t → KeysLe d (scaleTerms f t)
+  | [] => by simp [scaleTerms, evalTerms, KeysLe]
+  | x :: xs => by
+    obtain ⟨ih1, ih2⟩ := scaleTerms_sound env f xs
+    refine ⟨?_, ?_⟩
+    · simp only [scaleTerms, evalTerms, ih1, Int.cast_mul]; ring
+    · intro d hd z hz
+      rcases List.mem_cons.1 hz with h | h
+      · rw [h]; exact hd x List.mem_cons_self
+      · exact ih2 d (fun w hw => hd w (List.mem_cons_of_mem _ hw)) z h
+
+theorem shiftMul_sound (env : Nat → K) (k : Nat) (c : Int) (d1 d2 : Nat) (hk : dsum k ≤ d1) (h : d1 + d2 ≤ 127) :
+    ∀ ys : Terms, KeysLe d2 ys →
+      evalTerms env (shiftMul k c ys) = (c : K) * mono env k * evalTerms env ys ∧ KeysLe (d1 + d2) (shiftMul k c ys)
+  | [], _ => by simp [shiftMul, evalTerms, KeysLe]
+  | y :: ys, hy => by
+    have hyd : dsum y.1 ≤ d2 := hy y List.mem_cons_self
+    obtain ⟨ih1, ih2⟩ := shiftMul_sound env k c d1 d2 hk h ys (fun w hw => hy w (List.mem_cons_of_mem _ hw))
+    have hs : dsum k + dsum y.1 ≤ 127 := by omega
+    refine ⟨?_, ?_⟩
+    · simp only [shiftMul, evalTerms, ih1, mono_add env _ _ hs, Int.cast_mul]; ring
+    · intro z hz
+      rcases List.mem_cons.1 hz with h' | h'
+      · rw [h']; simp only; rw [dsum_add _ _ hs]; omega
+      · exact ih2 z h'
+
+theorem mulTerms_sound (env : Nat → K) (d1 d2 : Nat) (h : d1 + d2 ≤ 127) (ys : Terms) (hy : KeysLe d2 ys) :
+    ∀ xs : Terms, KeysLe d1 xs →
+      evalTerms env (mulTerms xs ys) = evalTerms env xs * evalTerms env ys ∧ KeysLe (d1 + d2) (mulTerms xs ys)
+  | [], _ => by simp [mulTerms, evalTerms, KeysLe]
+  | x :: xs, hx => by
+    obtain ⟨ih1, ih2⟩ := mulTerms_sound env d1 d2 h ys hy xs (fun w hw => hx w (List.mem_cons_of_mem _ hw))
+    obtain ⟨s1, s2⟩ := shiftMul_sound env x.1 x.2 d1 d2 (hx x List.mem_cons_self) h ys hy
+    obtain ⟨m1, m2⟩ := merge_sound env (d1 + d2) _ _ s2 ih2
+    refine ⟨?_, m2⟩
+    simp only [mulTerms, m1, s1, ih1, evalTerms]; ring
+
+/-- `p` represents the value `v`: `evalTerms p.t = v·10^p.s`, all keys of degree `≤ d` -/
+def SPSound (env : Nat → K) (d : Nat) (v : K) (p : SP) : Prop :=
+  evalTerms env p.t = v * (10 : K) ^ p.s ∧ KeysLe d p.t
+
+theorem SPSound.mono {env : Nat → K} {d d' : Nat} {v : K} {p : SP} (h : SPSound env d v p) (hd : d ≤ d') :
+    SPSound env d' v p := ⟨h.1, h.2.mono hd⟩
+
+theorem oneSP_sound (env : Nat → K) : SPSound env 0 1 oneSP := by
+  refine ⟨by simp [oneSP, evalTerms, mono_zero], ?_⟩
+  intro z hz
+  simp only [oneSP, List.mem_singleton] at hz
+  rw [hz]; simp [dsum_zero]
+
+theorem mulSP_sound {env : Nat → K} {d1 d2 : Nat} {va vb : K} {a b : SP} (ha : SPSound env d1 va a)
+    (hb : SPSound env d2 vb b) (h : d1 + d2 ≤ 127) : SPSound env (d1 + d2) (va * vb) (mulSP a b) := by
+  obtain ⟨m1, m2⟩ := mulTerms_sound env d1 d2 h b.t hb.2 a.t ha.2
+  refine ⟨?_, m2⟩
+  simp only [mulSP, m1, ha.1, hb.1, pow_add]; ring
+
+theorem powSP_sound {env : Nat → K} {d : Nat} {v : K} {p : SP} (hp : SPSound env d v p) :
+    ∀ n : Nat, n * d ≤ 127 → SPSound env (n * d) (v ^ n) (powSP p n)
+  | 0, _ => by simpa [powSP] using oneSP_sound env
+  | n + 1, h => by
+    have hn : n * d ≤ 127 := le_trans (Nat.mul_le_mul_right _ (Nat.le_succ n)) h
+    have ih := powSP_sound hp n hn
+    have e : (n + 1) * d = d + n * d := by rw [Nat.succ_mul, Nat.add_comm]
+    have := mulSP_sound hp ih (by omega)
+    simp only [powSP]
+    rw [e, pow_succ']
+    exact this
+
+theorem upTo_sound (env : Nat → K) (p : SP) (s : Nat) (h : p.s ≤ s) :
+    evalTerms env (upTo p s) = (10 : K) ^ (s - p.s) * evalTerms env p.t ∧ ∀ d, KeysLe d p.t → KeysLe d (upTo p s) := by
+  unfold upTo
+  by_cases hs : p.s = s
+  · simp [hs]
+  · simp only [hs, if_false]
+    obtain ⟨h1, h2⟩ := scaleTerms_sound env ((10 : Int) ^ (s - p.s)) p.t
+    exact ⟨by rw [h1]; norm_num, h2⟩
+
+/-- pointwise soundness of a list of normal forms -/
+def SoundL (env : Nat → K) : List E → List SP → Prop
+  | [], [] => True
+  | e :: l, p :: ps => SPSound env e.deg (e.eval env) p ∧ SoundL env l ps
+  | _, _ => False
+
+theorem sumAt_sound (env : Nat → K) (s : Nat) : ∀ (l : List E) (ps : List SP), SoundL env l ps → maxS ps ≤ s →
+    evalTerms env (sumAt s ps) = evalSum env l * (10 : K) ^ s ∧ KeysLe (degMax l) (sumAt s ps)
+  | [], [], _, _ => by simp [sumAt, evalTerms, evalSum, KeysLe]
+  | [], _ :: _, h, _ => by simp [SoundL] at h
+  | _ :: _, [], h, _ => by simp [SoundL] at h
+  | e :: l, p :: ps, h, hs => by
+    simp only [SoundL] at h
+    simp only [maxS] at hs
+    have hps : p.s ≤ s := le_trans (le_max_left _ _) hs
+    obtain ⟨ih1, ih2⟩ := sumAt_sound env s l ps h.2 (le_trans (le_max_right _ _) hs)
+    obtain ⟨u1, u2⟩ := upTo_sound env p s hps
+    have k1 : KeysLe (degMax (e :: l)) (upTo p s) := (u2 _ h.1.2).mono (by simp [degMax])
+    have k2 : KeysLe (degMax (e :: l)) (sumAt s ps) := ih2.mono (by simp [degMax])
+    obtain ⟨m1, m2⟩ := merge_sound env _ _ _ k1 k2
+    refine ⟨?_, m2⟩
+    simp only [sumAt, m1, u1, ih1, h.1.1, evalSum]
+    have : (10 : K) ^ s = 10 ^ (s - p.s) * 10 ^ p.s := by rw [← pow_add]; congr 1; omega
+    rw [this]; ring
+
+theorem prodFrom_sound (env : Nat → K) : ∀ (l : List E) (ps : List SP) (acc : SP) (d0 : Nat) (v0 : K),
+    SoundL env l ps → SPSound env d0 v0 acc → d0 + degSum l ≤ 127 →
+      SPSound env (d0 + degSum l) (v0 * evalProd env l) (prodFrom acc ps)
+  | [], [], acc, d0, v0, _, ha, _ => by simpa [prodFrom, evalProd, degSum] using ha
+  | [], _ :: _, _, _, _, h, _, _ => by simp [SoundL] at h
+  | _ :: _, [], _, _, _, h, _, _ => by simp [SoundL] at h
+  | e :: l, p :: ps, acc, d0, v0, h, ha, hd => by
+    simp only [SoundL] at h
+    simp only [degSum] at hd
+    have hm := mulSP_sound ha h.1 (by omega)
+    have := prodFrom_sound env l ps (mulSP acc p) (d0 + e.deg) (v0 * e.eval env) h.2 hm (by omega)
+    simp only [prodFrom, evalProd, degSum]
+    rw [← Nat.add_assoc, ← mul_assoc]
+    exact this
+
+theorem prodSP_sound (env : Nat → K) (l : List E) (ps : List SP) (h : SoundL env l ps) (hd : degSum l ≤ 127) :
+    SPSound env (degSum l) (evalProd env l) (prodSP ps) := by
+  cases l with
+  | nil =>
+    cases ps with
+    | nil => simpa [prodSP, evalProd, degSum] using oneSP_sound env
+    | cons _ _ => simp [SoundL] at h
+  | cons e l =>
+    cases ps with
+    | nil => simp [SoundL] at h
+    | cons p ps =>
+      simp only [SoundL] at h
+      simp only [degSum] at hd
+      have := prodFrom_sound env l ps p e.deg (e.eval env) h.2 h.1 hd
+      simpa [prodSP, evalProd, degSum] using this
+
+theorem degMax_le_degSum : ∀ l : List E, degMax l ≤ degSum l
+  | [] => le_refl _
+  | e :: l => by
+    simp only [degMax, degSum]
+    have := degMax_le_degSum l
+    omega
+
+variable [CharZero K]
+
+mutual
+theorem norm_sound (env : Nat → K) : ∀ e : E, e.deg ≤ 127 → e.maxVar < 10 →
+    SPSound env e.deg (e.eval env) (norm e)
+  | .lit m x, _, _ => by
+    unfold norm
+    by_cases hm : m = 0
+    · refine ⟨by simp [hm, evalTerms, E.eval], ?_⟩
+      intro z hz; simp [hm] at hz
+    · refine ⟨?_, ?_⟩
+      · simp only [hm, if_false, evalTerms, E.eval, mono_zero]
+        have : (10 : K) ^ x ≠ 0 := pow_ne_zero _ (by norm_num)
+        field_simp
+        push_cast; ring
+      · intro z hz
+        simp only [hm, if_false, List.mem_singleton] at hz
+        rw [hz]; simp [dsum_zero]
+  | .var v, _, hv => by
+    unfold norm
+    simp only [E.maxVar] at hv
+    refine ⟨by simp [evalTerms, E.eval, mono_var env v hv], ?_⟩
+    intro z hz
+    simp only [List.mem_singleton] at hz
+    rw [hz]; simp [E.deg, dsum_var v hv]
+  | .neg a, hd, hv => by
+    unfold norm
+    simp only [E.deg, E.maxVar] at hd hv
+    obtain ⟨h1, h2⟩ := norm_sound env a hd hv
+    obtain ⟨s1, s2⟩ := scaleTerms_sound env (-1) (norm a).t
+    refine ⟨?_, ?_⟩
+    · simp only [s1, h1, E.eval]; push_cast; ring
+    · simpa [E.deg] using s2 _ h2
+  | .pow b n, hd, hv => by
+    simp only [E.deg, E.maxVar] at hd hv
+    cases n with
+    | zero =>
+      have h1 : SPSound env 0 1 (norm (.pow b 0)) := by
+        unfold norm
+        simp only []
+        split
+        · rename_i x hx
+          refine ⟨by simp [evalTerms, mono_zero], ?_⟩
+          intro z hz
+          simp only [List.mem_singleton] at hz
+          rw [hz]; simp [dsum_zero]
+        · simpa [powSP] using oneSP_sound env
+      simpa [E.deg, E.eval] using h1
+    | succ n =>
+      have hb : b.deg ≤ 127 := by
+        have : b.deg ≤ (n + 1) * b.deg := Nat.le_mul_of_pos_left _ (Nat.succ_pos n)
+        omega
+      have ih := norm_sound env b hb hv
+      unfold norm
+      simp only []
+      split
+      · rename_i x hx
+        have hx1 : dsum x.1 ≤ b.deg := ih.2 x (by rw [hx]; exact List.mem_singleton_self x)
+        have hle : (n + 1) * dsum x.1 ≤ 127 := le_trans (Nat.mul_le_mul_left _ hx1) hd
+        obtain ⟨m1, m2⟩ := mono_nsmul env x.1 (n + 1) hle
+        have hev : (x.2 : K) * mono env x.1 = b.eval env * 10 ^ (norm b).s := by
+          have := ih.1; rw [hx] at this; simpa [evalTerms] using this
+        refine ⟨?_, ?_⟩
+        · simp only [evalTerms, m1, E.eval, add_zero, Int.cast_pow]
+          rw [← mul_pow, hev, mul_pow, ← pow_mul, Nat.mul_comm]
+        · intro z hz
+          simp only [List.mem_singleton] at hz
+          rw [hz]; simp only [E.deg]; rw [m2]; exact Nat.mul_le_mul_left _ hx1
+      · simpa [E.deg, E.eval] using powSP_sound ih (n + 1) hd
+  | .sum l, hd, hv => by
+    simp only [E.deg, E.maxVar] at hd hv
+    have hl := normL_sound env l hd hv
+    unfold norm
+    simp only []
+    obtain ⟨s1, s2⟩ := sumAt_sound env (maxS (normL l)) l (normL l) hl (le_refl _)
+    exact ⟨by simpa [E.eval] using s1, by simpa [E.deg] using s2⟩
+  | .prod l, hd, hv => by
+    simp only [E.deg, E.maxVar] at hd hv
+    have hl := normL_sound env l (le_trans (degMax_le_degSum l) hd) hv
+    unfold norm
+    simpa [E.deg, E.eval] using prodSP_sound env l (normL l) hl hd
+theorem normL_sound (env : Nat → K) : ∀ l : List E, degMax l ≤ 127 → maxVarL l < 10 → SoundL env l (normL l)
+  | [], _, _ => by simp [normL, SoundL]
+  | e :: l, hd, hv => by
+    simp only [degMax, maxVarL] at hd hv
+    have he := norm_sound env e (le_trans (le_max_left _ _) hd) (lt_of_le_of_lt (le_max_left _ _) hv)
+    have hl := normL_sound env l (le_trans (le_max_right _ _) hd) (lt_of_le_of_lt (le_max_right _ _) hv)
+    simp only [normL, SoundL]
+    exact ⟨he, hl⟩
+end
+
 end mono
+
+section ordered
+variable {K : Type} [Field K] [LinearOrder K] [IsStrictOrderedRing K]
+
+/-- `Σ |c_k|·|monomial_k|` — the scale against which coefficient-wise closeness bounds values -/
+def absTerms (env : Nat → K) : Terms → K
+  | [] => 0
+  | x :: xs => |(x.2 : K)| * |mono env x.1| + absTerms env xs
+
+theorem absTerms_nonneg (env : Nat → K) : ∀ t : Terms, 0 ≤ absTerms env t
+  | [] => le_refl _
+  | x :: xs => by
+    have := absTerms_nonneg env xs
+    simp only [absTerms]; positivity
+
+theorem closeTerms_sound (env : Nat → K) (tn td ps den : Nat) : ∀ g w : Terms,
+    closeTerms tn td ps den g w = true →
+      |evalTerms env g * (den : K) - evalTerms env w * (ps : K)| * (td : K) ≤ (tn : K) * (ps : K) * absTerms env w
+  | [], [], _ => by simp [evalTerms, absTerms]
+  | [], _ :: _, h => by simp [closeTerms] at h
+  | _ :: _, [], h => by simp [closeTerms] at h
+  | g :: gs, w :: ws, h => by
+    simp only [closeTerms, Bool.and_eq_true, beq_iff_eq, decide_eq_true_eq] at h
+    obtain ⟨⟨hk, hc⟩, hr⟩ := h
+    have ih := closeTerms_sound env tn td ps den gs ws hr
+    have hcK : |(g.2 : K) * (den : K) - (w.2 : K) * (ps : K)| * (td : K) ≤ (tn : K) * |(w.2 : K)| * (ps : K) := by
+      have := (Nat.cast_le (α := K)).2 hc
+      push_cast [Nat.cast_natAbs] at this
+      simpa using this
+    have hm : 0 ≤ |mono env w.1| := abs_nonneg _
+    have htd : (0 : K) ≤ (td : K) := Nat.cast_nonneg _
+    have e : evalTerms env (g :: gs) * (den : K) - evalTerms env (w :: ws) * (ps : K)
+        = ((g.2 : K) * (den : K) - (w.2 : K) * (ps : K)) * mono env w.1
+          + (evalTerms env gs * (den : K) - evalTerms env ws * (ps : K)) := by
+      simp only [evalTerms, hk]; ring
+    rw [e]
+    calc |((g.2 : K) * (den : K) - (w.2 : K) * (ps : K)) * mono env w.1
+            + (evalTerms env gs * (den : K) - evalTerms env ws * (ps : K))| * (td : K)
+        ≤ (|((g.2 : K) * (den : K) - (w.2 : K) * (ps : K))| * |mono env w.1|
+            + |evalTerms env gs * (den : K) - evalTerms env ws * (ps : K)|) * (td : K) := by
+          apply mul_le_mul_of_nonneg_right _ htd
+          calc _ ≤ |((g.2 : K) * (den : K) - (w.2 : K) * (ps : K)) * mono env w.1|
+                    + |evalTerms env gs * (den : K) - evalTerms env ws * (ps : K)| := abs_add_le _ _
+            _ = _ := by rw [abs_mul]
+      _ = (|((g.2 : K) * (den : K) - (w.2 : K) * (ps : K))| * (td : K)) * |mono env w.1|
+            + |evalTerms env gs * (den : K) - evalTerms env ws * (ps : K)| * (td : K) := by ring
+      _ ≤ ((tn : K) * |(w.2 : K)| * (ps : K)) * |mono env w.1| + (tn : K) * (ps : K) * absTerms env ws := by
+          apply add_le_add _ ih
+          exact mul_le_mul_of_nonneg_right hcK hm
+      _ = (tn : K) * (ps : K) * absTerms env (w :: ws) := by simp only [absTerms]; ring
+
+/-- **Meaning of a passed table check.**  If `checkE tn td e want den` holds then for every assignment of
+the variables (in any linearly ordered field) the value of the C expression `e` satisfies
+`|e − want/den| ≤ (tn/td)·(Σ|wanted coefficient|·|monomial|)/den`, written without division. -/
+theorem checkE_sound {tn td : Nat} {e : E} {want : Terms} {den : Nat} (h : checkE tn td e want den = true)
+    (env : Nat → K) :
+    |e.eval env * (den : K) - evalTerms env want| * (td : K) ≤ (tn : K) * absTerms env want := by
+  simp only [checkE, E.ok, Bool.and_eq_true, decide_eq_true_eq] at h
+  obtain ⟨⟨hd, hv⟩, hc⟩ := h
+  have hs := norm_sound env e hd hv
+  have hcl := closeTerms_sound env tn td (10 ^ (norm e).s) den _ _ hc
+  rw [hs.1] at hcl
+  have hp : (0 : K) < (10 : K) ^ (norm e).s := by positivity
+  have e1 : E.eval env e * (10 : K) ^ (norm e).s * (den : K) - evalTerms env want * ((10 ^ (norm e).s : Nat) : K)
+      = (10 : K) ^ (norm e).s * (E.eval env e * (den : K) - evalTerms env want) := by push_cast; ring
+  rw [e1, abs_mul, abs_of_pos hp] at hcl
+  have e2 : ((10 ^ (norm e).s : Nat) : K) = (10 : K) ^ (norm e).s := by push_cast; ring
+  rw [e2] at hcl
+  have : (10 : K) ^ (norm e).s * (|E.eval env e * (den : K) - evalTerms env want| * (td : K))
+      ≤ (10 : K) ^ (norm e).s * ((tn : K) * absTerms env want) := by
+    calc _ = (10 : K) ^ (norm e).s * |E.eval env e * (den : K) - evalTerms env want| * (td : K) := by ring
+      _ ≤ (tn : K) * (10 : K) ^ (norm e).s * absTerms env want := hcl
+      _ = _ := by ring
+  exact le_of_mul_le_mul_left this hp
+
+end ordered
 
 end Compmech.C10
